@@ -1177,10 +1177,11 @@ LEVEL_TEXT = (LEVEL_TEXT +
               "every short, long and visible alias), a line for every positional, and the nu-complete definition with every "
               "possible value (hidden ones included) referenced from the argument's lines.  The two recorded findings "
               "(option aliases without primary, subcommand aliases) are proved class boundaries with replayed witnesses.  The "
-              "model's module is compared byte for byte with the real generator's on every generated tree on every run.")
+              "model's module is compared byte for byte with the real generator's on every generated tree on every run.  "
+              "Command::build makes the bin names linked (parent's bin, a blank, the name) for every user tree without bin "
+              "names of its own and a non-empty bin (C16_build_linked), so the declared path of a block is 'bin n1 .. nk'.")
 LEVEL_NOTE = LEVEL_NOTE.replace("Partial: zsh/fish/nushell have no generator model (token oracle only)",
                                 "Partial: zsh has no generator model (token oracle only); fish, PowerShell, elvish and nushell have "
                                 "byte-exact generator models with theorems but are not installed (what the shell does with the script "
-                                "is not modelled); for nushell `build => linked` is a hypothesis of the theorem that names the declared "
-                                "path, and that two commands never share a declared name is not stated (exactly one block per command is)")
+                                "is not modelled); that two commands never share a declared name is not stated (exactly one block per command is)")
 # ---- end nushell generator model ----
